@@ -590,11 +590,32 @@ func (p *parser) readProc() *Proc {
 // is an operation after that. If so it reads the next equation and decides
 // based on precedent which is contained in the other.
 func (p *parser) readEq() (eq *Equation) {
+	eq = p.readEqValue()
+	for p.pos < len(p.buf) {
+		b := p.nextNonSpace()
+		switch b {
+		case ',': // probably reading array elements or function arguments
+			return
+		case ')':
+			return
+		case ']', 0:
+			return
+		}
+		eq = &Equation{left: eq, o: p.readEqOp(), right: p.readEq()}
+	}
+	return
+}
+
+// Reads one value, group, function call or negated value but not the
+// operators that might follow it.
+func (p *parser) readEqValue() (eq *Equation) {
 	b := p.nextNonSpace()
 	switch b {
 	case '!':
 		p.pos++
-		eq = &Equation{o: not, left: p.readEq()}
+		// A not binds tighter than any binary operator, it only applies to
+		// the value that follows.
+		eq = &Equation{o: not, left: p.readEqValue()}
 	case '-', '0', '1', '2', '3', '4', '5', '6', '7', '8', '9':
 		p.pos++
 		eq = &Equation{result: p.readNum(b)}
@@ -639,18 +660,6 @@ func (p *parser) readEq() (eq *Equation) {
 				p.raise("'%s' is not a value or function", token)
 			}
 		}
-	}
-	for p.pos < len(p.buf) {
-		b := p.nextNonSpace()
-		switch b {
-		case ',': // probably reading array elements or function arguments
-			return
-		case ')':
-			return
-		case ']', 0:
-			return
-		}
-		eq = &Equation{left: eq, o: p.readEqOp(), right: p.readEq()}
 	}
 	return
 }
